@@ -19,6 +19,7 @@ import (
 	"strconv"
 	"strings"
 	"sync"
+	"unsafe"
 
 	"github.com/modern-go/reflect2"
 )
@@ -63,6 +64,24 @@ func fieldAlias(tag reflect.StructTag, name string, tags []string) string {
 	return name
 }
 
+// embeddedField is a field of an embedded struct, addressed from the outer struct.
+type embeddedField struct {
+	reflect2.StructField
+	base uintptr
+}
+
+func (f embeddedField) Offset() uintptr {
+	return f.base + f.StructField.Offset()
+}
+
+func (f embeddedField) UnsafeGet(obj unsafe.Pointer) unsafe.Pointer {
+	return f.StructField.UnsafeGet(unsafe.Pointer(uintptr(obj) + f.base))
+}
+
+func (f embeddedField) UnsafeSet(obj unsafe.Pointer, value unsafe.Pointer) {
+	f.StructField.UnsafeSet(unsafe.Pointer(uintptr(obj)+f.base), value)
+}
+
 func _getFields(t reflect2.StructType, tags []string, mapping map[string]struct{}, fields []FieldAccessor) []FieldAccessor {
 	n := t.NumField()
 	for i := 0; i < n; i++ {
@@ -75,7 +94,14 @@ func _getFields(t reflect2.StructType, tags []string, mapping map[string]struct{
 			continue
 		case reflect.Struct:
 			if f.Anonymous() {
+				first := len(fields)
 				fields = _getFields(ft.(reflect2.StructType), tags, mapping, fields)
+				if base := f.Offset(); base != 0 {
+					// the promoted fields are addressed relative to the embedded struct
+					for j := first; j < len(fields); j++ {
+						fields[j].Field = embeddedField{fields[j].Field, base}
+					}
+				}
 				continue
 			}
 		}
